@@ -559,3 +559,84 @@ func TestC11Soundness(t *testing.T) {
 	r := ev.New(t, "C11")
 	ev.Drive(t, r, genC11, runC11)
 }
+
+// TestC11PaillierSmallPrimeSweep: the Paillier key proof must reject every modulus divisible by a prime
+// below 1000 -- also when every root equation holds. For N = r*Q with gcd(N, phi(N)) = 1 the library's own
+// prover computes genuine N-th roots, so only the small-prime screen stands between such a modulus and
+// acceptance. Exhaustive over the 168 primes r (N has exactly 512 bits so that the challenge sampler
+// terminates, cf. finding F8), with a control modulus (two 256-bit primes) that must be accepted.
+func TestC11PaillierSmallPrimeSweep(t *testing.T) {
+	r := ev.New(t, "C11")
+	type sweep struct {
+		R    int64 // 0 = control
+		Seed int
+	}
+	var cases []sweep
+	for p := int64(3); p < 1000; p++ { // 2 is left out: an even modulus shares the factor 2 with phi(N), no roots exist
+		if isPrimeSmall(p) {
+			cases = append(cases, sweep{R: p, Seed: int(ev.Seed())})
+		}
+	}
+	cases = append(cases, sweep{R: 0})
+	ev.Each(t, r, cases, func(c sweep) ev.Outcome {
+		out := ev.Outcome{Label: fmt.Sprintf("paillier key proof, modulus divisible by %d", c.R), Nontrivial: true}
+		var P, Q *big.Int
+		for tries := 0; ; tries++ {
+			if c.R == 0 {
+				P, Q = prime(256), prime(256)
+			} else {
+				P = big.NewInt(c.R)
+				// a prime cofactor that makes N = r*Q exactly 512 bits long
+				lo := new(big.Int).Div(new(big.Int).Lsh(one, 511), P)
+				hi := new(big.Int).Div(new(big.Int).Lsh(one, 512), P)
+				for {
+					Q = add(new(big.Int).Add(lo, randBelow(new(big.Int).Sub(hi, lo))), 1)
+					Q.SetBit(Q, 0, 1)
+					if Q.ProbablyPrime(20) {
+						break
+					}
+				}
+			}
+			N := mul(P, Q)
+			phi := mul(add(P, -1), add(Q, -1))
+			if N.BitLen() == 512 && P.Cmp(Q) != 0 && new(big.Int).GCD(nil, nil, N, phi).Cmp(one) == 0 {
+				break
+			}
+			if tries > 200 {
+				out.Skip = true
+				return out
+			}
+		}
+		N := mul(P, Q)
+		sk := &paillier.PrivateKey{PublicKey: paillier.PublicKey{N: N}, PhiN: mul(add(P, -1), add(Q, -1)), P: P, Q: Q}
+		pub := crypto.ScalarBaseMult(tss.S256(), big.NewInt(int64(7+c.R)))
+		k := big.NewInt(int64(1000 + c.R))
+		var pf paillier.Proof
+		okT, pn := withDeadline(120*time.Second, func() { pf = sk.Proof(k, pub) })
+		if !okT || pn != nil {
+			out.Skip = true // the prover could not run on this modulus: nothing to present
+			return out
+		}
+		var ok bool
+		var err error
+		okT, pn = withDeadline(120*time.Second, func() { ok, err = pf.Verify(N, k, pub) })
+		if !okT || pn != nil {
+			return out // not accepted (crashes and hangs are C06's subject)
+		}
+		if c.R == 0 {
+			if !ok {
+				out.Label = "uncalibrated paillier key proof sweep (control modulus rejected: " + fmt.Sprint(err) + ")"
+				out.Nontrivial = false
+			} else {
+				out.Label = "paillier key proof, control modulus accepted (calibration)"
+			}
+			return out
+		}
+		if ok {
+			out.Err = fmt.Errorf("Paillier key proof accepted for a modulus divisible by the small prime %d (all root equations genuine)", c.R)
+			out.Sig = fmt.Sprintf("accepted:paillier-small-prime:%d", c.R)
+		}
+		return out
+	})
+	r.SetExhaustive(true)
+}
